@@ -398,7 +398,8 @@ Qed.
 (* ===== histories ===== *)
 Inductive sub := SubBorrow | SubCopy (c1 : nat) | SubCollapse.
 Inductive op := OpCopy (c : nat) | OpBorrow | OpCollapse | OpConsume (k : nat) | OpClear
-              | OpAnchored (c : nat) (subs : list sub).     (* pieces of an anchored buffer of chunk c, then its anchor *)
+              | OpAnchored (c : nat) (subs : list sub)      (* pieces of an anchored buffer of chunk c, then its anchor *)
+              | OpIdle.                                   (* push_anchor of a default anchor (anchored input of zero bytes asked for) *)
 Definition apply_sub (c : nat) (g : gd) (s : sub) : gd :=
   match s with
   | SubBorrow => push_borrowed (Some c) g
@@ -413,6 +414,7 @@ Definition apply_op (o : op) (g : gd) : gd :=
   | OpConsume k => consume (Nat.min k (length (slices g))) g
   | OpClear => {| slices := []; anchors := [] |}
   | OpAnchored c subs => push_anchor c (fold_left (apply_sub c) subs g)
+  | OpIdle => {| slices := slices g; anchors := anchors g ++ [{| acount := 0; achunk := None |}] |}
   end.
 
 Lemma empty_inv : Inv {| slices := []; anchors := [] |}.
@@ -420,7 +422,7 @@ Proof. constructor; cbn; auto. intros p c H. destruct p; discriminate. Qed.
 
 Lemma apply_op_inv o g : Inv g -> Inv (apply_op o g).
 Proof.
-  intros I. destruct o as [c| | |k| |c subs]; cbn [apply_op].
+  intros I. destruct o as [c| | |k| |c subs|]; cbn [apply_op].
   - now apply push_owned_inv.
   - now apply push_plain_inv.
   - now apply collapse_inv.
@@ -429,6 +431,9 @@ Proof.
   - apply winv_push_anchor. generalize (Inv_WInv c g I). generalize g. clear.
     induction subs as [|s subs IH]; intros g W; cbn [fold_left]; [exact W|]. apply IH.
     destruct s; cbn [apply_sub]; [apply winv_push_borrowed; auto|apply winv_push_owned; auto|apply winv_collapse; auto].
+  - constructor; cbn [slices anchors].
+    + rewrite total_app, (inv_total g I). unfold total. cbn. lia.
+    + intros p c Hp. eapply protected_append_anchor; [reflexivity|apply (inv_prot g I p c Hp)].
 Qed.
 
 (* C05, core: in every state reachable by these operations a chunk referenced by a remaining slice
